@@ -1562,7 +1562,9 @@ impl St {
             let r = format!("ok {}", self.last_passes);
             if let Some(spec) = &self.spec {
                 if spec.dups && !spec.dd.is_empty() && spec.fault == Fault::None {
-                    ctx.check_oracle("ok 4", &r);
+                    // D34: a key heavy enough to oversize its shard for every seed is reported
+                    // after 32 retries of MaxShardTooBig, other duplicates after 3 retries
+                    ctx.check_oracle(if heavy_forced(spec) { "ok 33" } else { "ok 4" }, &r);
                 }
             }
             ctx.reply(&r);
@@ -2144,6 +2146,35 @@ struct Opts {
     force_parts: bool,
 }
 
+/// D34: after the `dd` assignments one key has more than `1.01 * n / shards` copies, so its shard
+/// is too big whatever the seed (`shards` as `set_up_shards(n)` of the fuse logics fixes it for
+/// n <= 800 000; beyond that it depends on floating point and the answer is `false`)
+fn heavy_forced(spec: &Spec) -> bool {
+    let n = spec.n;
+    if spec.dd.is_empty() || n == 0 {
+        return false;
+    }
+    let shards: u128 = if spec.lg == "noshards" {
+        1
+    } else if n <= 800_000 {
+        1 << Ord::max(n / 50_000, 1).ilog2()
+    } else {
+        return false;
+    };
+    let mut ids: Vec<usize> = (0..n).collect();
+    for &(dst, src) in &spec.dd {
+        if dst < n && src < n {
+            ids[dst] = ids[src];
+        }
+    }
+    let mut cnt = vec![0usize; n];
+    for &i in &ids {
+        cnt[i] += 1;
+    }
+    let m = cnt.into_iter().max().unwrap_or(0) as u128;
+    101 * (n as u128) < 100 * m * shards
+}
+
 /// `log2_buckets` of the signature store as `build_loop` fixes it (`None`: depends on the
 /// floating-point `sharding_high_bits`, not re-derived here)
 fn log2_buckets_of(spec: &Spec) -> Option<u32> {
@@ -2204,7 +2235,8 @@ fn run_case(ctx: &mut Ctx, spec: &Spec, o: &Opts) {
     if spec.lk == "vec"
         && !spec.take
         && !spec.short
-        && (spec.att.is_some() || (spec.dups && !spec.dd.is_empty() && spec.n < 50_000))
+        && (spec.att.is_some()
+            || (spec.dups && !spec.dd.is_empty() && (spec.n < 50_000 || heavy_forced(spec))))
     {
         st.exec(ctx, "attempts", false);
     }
@@ -2700,14 +2732,21 @@ pub fn run(ctx: &mut Ctx) {
         // D34: ONE key repeated so often that its shard is too big for every seed (the transient
         // MaxShardTooBig hides the duplicates forever): the build must still end with DuplicateKey
         {
+            // 3000 of 100 001 (2 shards) and 5000 of 200 001 (4 shards) oversize the shard only
+            // with overwhelming probability; 51 000, 60 000, 52 000 copies do so for every seed
+            // (`heavy_forced`): for those the model answers from the D34 arm of `build_loop` and the
+            // number of attempts (33) is compared as well
             let plan: Vec<(usize, usize, Combo)> = if thorough {
                 vec![
                     (100_001, 3000, default_func),
+                    (100_001, 51_000, default_func),
                     (100_001, 60_000, combo_of("filter", "vec", "usize", "8", "box", 2, "shards")),
                     (200_001, 5000, box_func),
+                    (200_001, 52_000, box_func),
+                    (100_001, 50_600, combo_of("func", "vec", "usize", "64", "bfv", 2, "fullsigs")),
                 ]
             } else {
-                vec![(100_001, 3000, default_func)]
+                vec![(100_001, 3000, default_func), (100_001, 51_000, default_func)]
             };
             for (j, (n, copies, c)) in plan.into_iter().enumerate() {
                 let mut s = base_spec(&c, n);
@@ -2716,6 +2755,9 @@ pub fn run(ctx: &mut Ctx) {
                 s.seed = 70 + j as u64;
                 s.off = j % 2 == 1;
                 ctx.stat("heavy_duplicate_key");
+                if heavy_forced(&s) {
+                    ctx.stat("heavy_duplicate_key_forced");
+                }
                 run_case(ctx, &s, &o);
             }
         }
